@@ -682,7 +682,7 @@ func (propC05) Exec(p *Plan, x *Ctx) *Outcome {
 		p.Schedule = run.Executed
 	}
 	for _, e := range run.Executed {
-		out.Events.Int(int64(e.Task)).Int(e.Quantum)
+		out.Sched.Int(int64(e.Task)).Int(e.Quantum)
 	}
 	steps := 0
 	for t, tp := range p.Tasks {
